@@ -32,7 +32,7 @@ def run(ctx):
                             continue
                         d = ['SHAPE=%s' % ','.join(str(x) for x in sh), 'OPFIX=%d' % op, 'AFIX=%d' % a, 'BFIX=%d' % b] + (['PRE_DONTUSEREFS'] if pre else [])
                         nm = 'shape-%s%s-op%d-a%d-b%d' % (''.join(str(x) for x in sh), '-norefs' if pre else '', op, a, b)
-                        q = Query(nm, L, hs, d, unwind=7, timeout=300, backend='cadical',
+                        q = Query(nm, L, hs, d, unwind=7, timeout=900, backend='cadical',
                                   desc='handles refer to objects %s%s; step: %s with a=h%d b=h%d; then every handle goes out of scope' % (sh, ' (X not reference counted)' if pre else '', OPS[op], a, b))
                         q.no_ptr_overflow = True
                         n_all[0] += 1
@@ -41,7 +41,7 @@ def run(ctx):
                         (qw if (len(qs) + len(qw)) % 12 == 0 else qs).append(q)
     kq = []
     if 'swap-ring' in known:
-        q = Query('swap/known', L, hs, ['SHAPE=1,1,2', 'OPFIX=3', 'AFIX=0', 'BFIX=2'], unwind=7, timeout=300, backend='cadical', expect='fail', known='key=swap-ring ' + known['swap-ring'], desc='re-confirm listed finding')
+        q = Query('swap/known', L, hs, ['SHAPE=1,1,2', 'OPFIX=3', 'AFIX=0', 'BFIX=2'], unwind=7, timeout=900, backend='cadical', expect='fail', known='key=swap-ring ' + known['swap-ring'], desc='re-confirm listed finding')
         q.no_ptr_overflow = True
         kq.append(q)
     if ctx.only:
